@@ -229,7 +229,7 @@ CHECKS = {
         'technique': 'Lean 4 theorems on a faithful parser model + regex-text correspondence (K1) + API exception search',
     },
     'C14': {
-        'text': "Theorems over a Lean model of WcMatch._walk (os.walk with in-place pruning, _valid_folder/_valid_file, hidden "
+        'text': "END TO END (C14e2e): Model/WcCompile.lean models WcMatch's flag arithmetic and pattern compilation (_parse_flags, _compile_wildcard, _compile, WcRegexp.match, the arguments of compare_file / compare_directory); C14_e2e / C14_e2e_list — for every flag word, limit, pattern pair that compiles and tree, the results are exactly the reachable files the C07 list semantics of the file pattern selects; wildcardWord_flags, C14_anchor; stream K7-patterns (driver commands wcwalkp / wcspecp compile the pattern strings in the model). Theorems over a Lean model of WcMatch._walk (os.walk with in-place pruning, _valid_folder/_valid_file, hidden "
                 "rule, RECURSIVE/HIDDEN/SYMLINKS, poll sites, hooks) for ALL trees, ALL pattern-decision functions and ALL flag "
                 "records: results = (reachable tree).filter selected as exact sequences, no file twice, get_skipped = visited - "
                 "returned, empty-pattern rules, independence from link targets without SYMLINKS; generated facts about "
@@ -342,7 +342,7 @@ CHECKS['C10'].update({
                  "regex-text correspondence (K1) + re.compile and API exception search",
 })
 CHECKS['C18'].update({
-    'text': "Theorems (Lean), on the faithful port of WcParse, for EVERY pattern string and EVERY configuration: bytes_str_twin — the bytes pass and "
+    'text': "C18walk: bytes = str for compileMatch / matchReal, globSplit, Glob.__init__ + the glob event sequence on Latin-1 trees (glob_bytes_eq_str), the three limit loops (naturality) and the WcMatch model (table congruence); KF-D38 found by this proof. Theorems (Lean), on the faithful port of WcParse, for EVERY pattern string and EVERY configuration: bytes_str_twin — the bytes pass and "
             "the str pass succeed or fail alike and emit regexes related by ReBytesTwin (equal except the full-range spelling of a class emptied by "
             "the reversed-range check: `\\x00-\\xff` vs `\\x00-\\U0010ffff`; POSIX items literally equal because the two tables agree, "
             "posix_tables_agree lifted to all names); bytes_str_same_matches — on every subject whose code units are < 256 the two regexes have "
@@ -505,7 +505,7 @@ CHECKS['C02'].update({
 })
 _c16 = CHECKS['C16']['text']
 CHECKS['C16'].update({
-    'text': "C16views (the abstract iglob/globmatch parameters instantiated with the walker and matcher MODELS, `realEnv`): globmatch_is_glob_globmatch / "
+    'text': "C16bridge: the match half of the match/rglob clause for magic globstar-free patterns (C16_match_globfree, C16_match_iff_denotes) via PB.root_E, parseItems_em_path, fsMatch_emPath; the rglob half is stated, not proved. C16views (the abstract iglob/globmatch parameters instantiated with the walker and matcher MODELS, `realEnv`): globmatch_is_glob_globmatch / "
             "match_is_extmatchbase (PurePath.globmatch, full_match, match = the glob.globmatch model on the path's string with the translated word, directory slash, "
             "_EXTMATCHBASE; the implicit prefix evaluated: extmatchbase_prefix, extmatchbase_parse_shape for EVERY pattern), globSplit_total / noabsolute_raises_split "
             "(the splitter raises exactly for an absolute pattern under _NOABSOLUTE, never otherwise, every user word), path_glob_is_glob, "
